@@ -18,7 +18,7 @@ let parse_key s =
   | [n; v; ok] -> { knode = nat n; kverb = nat v; kvalid = (ok = "1") }
   | _ -> failwith "key"
 let parse_cat s : cat =
-  let ms = ref [] and ds = ref [] in
+  let ms = ref [] and ds = ref [] and vs = ref [] in
   Stdlib.List.iter (fun part ->
       if part.[0] = 'M' then begin
         match String.split_on_char ':' (String.sub part 1 (String.length part - 1)) with
@@ -28,9 +28,19 @@ let parse_cat s : cat =
                   | k :: adds -> { rmain = k; radd = adds } | [] -> failwith "rule") (String.split_on_char '_' rules) in
           ms := (int_of_string id, { mname = nat id; mnode = nat node; mrules = rs }) :: !ms
         | _ -> failwith "method"
+      end else if part.[0] = 'V' then begin
+        (* a variant of a method: the same name with other rules (a newer deployment) *)
+        match String.split_on_char ':' (String.sub part 1 (String.length part - 1)) with
+        | [vid; id; node; rules] ->
+          let rs = Stdlib.List.map (fun r -> match Stdlib.List.map parse_key (String.split_on_char '>' r) with
+              | k :: adds -> { rmain = k; radd = adds } | [] -> failwith "rule") (String.split_on_char '_' rules) in
+          vs := (int_of_string vid, { mname = nat id; mnode = nat node; mrules = rs }) :: !vs
+        | _ -> failwith "variant"
       end else if part.[0] = 'D' then begin
         match String.split_on_char '=' (String.sub part 1 (String.length part - 1)) with
-        | [id; l] -> ds := (int_of_string id, Stdlib.List.map (fun m -> Stdlib.List.assoc (int_of_string m) !ms) (split '+' l)) :: !ds
+        | [id; l] -> ds := (int_of_string id, Stdlib.List.map (fun m ->
+            if m.[0] = 'v' then Stdlib.List.assoc (int_of_string (String.sub m 1 (String.length m - 1))) !vs
+            else Stdlib.List.assoc (int_of_string m) !ms) (split '+' l)) :: !ds
         | _ -> failwith "desc"
       end else failwith "catalogue") (String.split_on_char '|' s);
   { methods = Stdlib.List.rev !ms; descs = Stdlib.List.rev !ds }
